@@ -5,7 +5,7 @@
 //! writing; the real store is then re-opened on the directory with the same identity, twice.
 use crate::c01::fresh_scratch;
 use crate::store_rig::{hexkey, ranked_keys, RigCfg, StoreRig};
-use libp2p::kad::RecordKey;
+use libp2p::kad::{Record, RecordKey};
 use mc_core::bfs::{bfs_replay, BfsOpts, Fail, System};
 use mc_core::Run;
 use std::collections::HashMap;
@@ -368,6 +368,82 @@ fn large_record_sweep(run: &'static Run) {
     }
 }
 
+/// Restarts through the real builder. `NetworkBuilder::build_node` decides from the network id recorded in the root
+/// directory whether the record store of an earlier run is kept or wiped; a node restarted with the same identity *and the
+/// same network id* must serve every record whose write had completed. Every sequence of 3(4) runs over the network ids
+/// {1, 2, 10, 100, 255} (one, two and three digits) on one root directory: each run reads what earlier runs stored, then
+/// stores one more record through the real `PutLocalRecord` handling and settles. A run that follows a run with another id
+/// is a deliberate wipe and is judged for safety only (whatever is served is a value stored for that key).
+fn restart_through_builder(run: &Run) {
+    use crate::driver_rig::DriverRig;
+    use ant_networking::verif_hooks::{LocalSwarmCmd, UnifiedRecordStore};
+    use libp2p::kad::store::RecordStore;
+    let ids: [u8; 5] = [1, 2, 10, 100, 255];
+    let runs = run.pick(3, 4);
+    let peer = rigs::fixtures::peer_id(1);
+    let keys = ranked_keys(peer, runs, "c02-builder");
+    let value = |i: usize| -> Vec<u8> { [&[0x91u8, 1][..], format!("stored in run {i}").as_bytes()].concat() };
+    let read = |rig: &mut DriverRig, k: &RecordKey| -> Option<Vec<u8>> {
+        match rig.store() {
+            UnifiedRecordStore::Node(s) => s.get(k).map(|r| r.into_owned().value),
+            UnifiedRecordStore::Client(_) => None,
+        }
+    };
+    let mut kept_checked = 0u64;
+    mc_core::enumerate::sequences(&ids, runs, |seq| {
+        if seq.len() != runs {
+            return;
+        }
+        let root = fresh_scratch("c02-builder");
+        let desc = serde_json::json!({"engine": "restart-through-builder", "network_ids_of_the_runs": seq});
+        run.case(desc.to_string().as_bytes(), seq.windows(2).any(|w| w[0] == w[1]));
+        // records stored (and settled) by the unbroken series of runs with the current id
+        let mut expected: Vec<usize> = vec![];
+        let mut prev: Option<u8> = None;
+        for (i, id) in seq.iter().enumerate() {
+            ant_protocol::version::set_network_id(*id);
+            let mut rig = DriverRig::new_node(1, &root);
+            if prev != Some(*id) {
+                expected.clear();
+            }
+            for j in 0..i {
+                let got = read(&mut rig, &keys[j]);
+                if let Some(g) = &got {
+                    if *g != value(j) {
+                        run.violation("served-value-was-validated", "restart-through-builder", format!("run {i} (network id {id}) serves bytes for the key of run {j} that were never stored for it ({desc})"), desc.clone());
+                    }
+                }
+                if expected.contains(&j) {
+                    kept_checked += 1;
+                    if got.is_none() {
+                        run.violation(
+                            "completed-write-survives",
+                            "restart-through-builder",
+                            format!("the record stored and settled in run {j} is not served in run {i}, although every run since then used the same identity and network id {id} ({desc})"),
+                            desc.clone(),
+                        );
+                    }
+                }
+            }
+            let record = Record { key: keys[i].clone(), value: value(i), publisher: None, expires: None };
+            let _ = rig.handle_local(LocalSwarmCmd::PutLocalRecord { record });
+            rig.settle();
+            if read(&mut rig, &keys[i]).as_deref() != Some(&value(i)[..]) {
+                run.machinery_error(&format!("restart-through-builder: a record put through the real driver does not read back in the same run ({desc})"));
+            }
+            expected.push(i);
+            prev = Some(*id);
+            drop(rig);
+        }
+        let _ = std::fs::remove_dir_all(&root);
+    });
+    ant_protocol::version::set_network_id(1);
+    if kept_checked == 0 {
+        run.machinery_error("restart-through-builder: no run followed a run with the same network id");
+    }
+    run.extra("restart_through_builder", serde_json::json!({"network_ids": ids, "runs_per_sequence": runs, "kept_records_checked": kept_checked}));
+}
+
 pub fn main(tier: Option<&str>) {
     let run: &'static Run = Box::leak(Box::new(Run::new("C02", "fault_enumeration", tier)));
     run.rule(
@@ -421,6 +497,7 @@ pub fn main(tier: Option<&str>) {
     run.extra("torn_write_points", serde_json::json!(tp));
     run.extra("recoveries", serde_json::json!(sh.recoveries.load(std::sync::atomic::Ordering::Relaxed)));
     run.extra("transitions_crashed", serde_json::json!(st.transitions));
+    restart_through_builder(run);
     let t0 = std::time::Instant::now();
     large_record_sweep(run);
     run.extra("large_record_torn_points", serde_json::json!(run.get_count("large_record_torn_points")));
